@@ -33,7 +33,7 @@ import scan_units
 import spec_emph
 
 ID = 'C14'
-EXTRA_MODULES = ['Mistletoe.Proofs.Inert', 'Mistletoe.Proofs.InertInline', 'Mistletoe.Proofs.InertInline2', 'Mistletoe.Proofs.InertInline3', 'propsdriver']
+EXTRA_MODULES = ['Mistletoe.Proofs.Inert', 'Mistletoe.Proofs.InertInline', 'Mistletoe.Proofs.InertInline2', 'Mistletoe.Proofs.InertInline3', 'Mistletoe.Proofs.InertInline5', 'propsdriver']
 RULE = ('paragraphs of 1-4 lines of 1-8 tokens from a ~120-token vocabulary (intraword underscores, isolated * - + # > = | ~ ^ $ '
         '% @, unpaired and unlinked brackets, ampersands not starting a reference, digits/dots/parentheses not forming list '
         'markers, quotes, non-ASCII letters and punctuation), kept only when the spec-derived predicate `inert` accepts them. '
@@ -41,11 +41,11 @@ RULE = ('paragraphs of 1-4 lines of 1-8 tokens from a ~120-token vocabulary (int
 TRUSTED = ['harness/props/c14.py:inert is the independent reading of the specification used as filter (conservative: it only '
            'accepts paragraphs in which the specification gives no character a meaning)']
 ASSUMPTIONS = []
-PARTIAL = ['the Lean hypotheses (`inertLine`, `proseLine`, `inertBody4` - Props/C14_Wide.lean) are sufficient conditions, not the '
-           'whole inert domain of the specification: "<" directly before a letter '
-           'that starts no tag, a "]" that closes no link although "(" or "[" follows are outside them; those paragraphs are covered '
-           'by the exploration against the spec-derived predicate only (the evidence gives the measured share: about 95 % of the '
-           'spec-derived inert domain meets the hypotheses)']
+PARTIAL = ['the Lean hypotheses (`inertLine`, `proseLine`, `inertBody5` - Props/C14_Wide.lean) are sufficient conditions, not the '
+           'whole inert domain of the specification: a continuation line that begins with "[" or is a lone ordered marker, trailing '
+           'spaces of some shapes, "<!" / "<?" followed later by ">" without forming a construct are outside them; those paragraphs '
+           'are covered by the exploration against the spec-derived predicate only (the evidence gives the measured share of the '
+           'spec-derived inert domain that meets the hypotheses)']
 
 VOCAB = ['foo', 'bar', 'Baz', 'snake_case', 'a_b_c', '_', 'x_', '__init__ed', '5 * 6', '*', '3*', '- 1', '-', '--', 'a-b', '+', '1+1', 'c++',
          '#', '#tag', 'C#', '# ', '>', '->', '=>', '>=', '<', '< 3', '<=', 'a<b', '=', '==', '===x', '|', 'a|b', '||', '~', '~x', 'a~b', '^', 'x^2',
@@ -115,12 +115,16 @@ def inert(lines):
         j = m.end()
         if j >= len(text) or text[j] in PUNCT or text[j] == '\n':
             return False
-    if re.search(r'<[A-Za-z/!?]', text):
-        return False              # autolink or raw HTML could start here
+    for m in re.finditer(r'<[A-Za-z/!?]', text):
+        if '>' in text[m.end():]:
+            return False          # autolink or raw HTML could start here (every such construct ends in '>': spec 6.5, 6.6)
     if ENTITY.search(text):
         return False
-    if re.search(r'\]\s*[(\[]', text) or re.search(r'\]:', text):
-        return False              # inline / reference link shapes
+    for m in re.finditer(r'\]\s*[(\[]', text):
+        if '[' in text[:m.start()]:
+            return False          # inline / reference link shapes (a link text needs its '[' before the ']')
+    if re.search(r'\]:', text):
+        return False
     if any(c.isspace() and c not in ' \n' for c in text):
         return False
     # * and _ : the specification's delimiter-run algorithm must leave them all literal
@@ -195,7 +199,7 @@ def units(ctx):
     n_spec = n_both = n_lean = n_narrow = 0
     for ls, h in zip(paras, hyps):
         spec_ok = inert(ls)
-        lean_ok = isinstance(h, dict) and all(h.get(k) for k in ('nonEmpty', 'oneLine', 'inertLine', 'proseLine', 'inertBody4'))
+        lean_ok = isinstance(h, dict) and all(h.get(k) for k in ('nonEmpty', 'oneLine', 'inertLine', 'proseLine', 'inertBody5'))
         n_spec += spec_ok
         n_lean += lean_ok
         n_narrow += bool(lean_ok and h.get('inertBody'))
